@@ -182,9 +182,9 @@ func opHandler(r *rand.Rand, n int, tier string) {
 	// the same line of one generic function, instantiated with differently shaped type arguments: the runtime prints
 	// both as parkGeneric[...] with an aggregate resp. a scalar argument (the aggregate one comes first in the dump)
 	wg.Add(2)
-	go parkGeneric(stop, struct{ a, b uintptr }{1, 2}, &wg)
+	launchGeneric(stop, struct{ a, b uintptr }{1, 2}, &wg)
 	time.Sleep(time.Millisecond)
-	go parkGeneric(stop, uintptr(3), &wg)
+	launchGeneric(stop, uintptr(3), &wg)
 	for k := 0; k < 3; k++ {
 		// (a multi-line function: for a one-line function the frame's line starts at the declaration itself
 		//  and the source analysis finds no enclosing function)
@@ -241,6 +241,11 @@ func init() {
 // ---- live ----
 
 var reHeaderLine = regexp.MustCompile(`(?m)^goroutine \d+ `)
+
+// launchGeneric: ONE go statement for every instantiation (same creator line)
+//
+//go:noinline
+func launchGeneric[T any](c chan int, v T, wg *sync.WaitGroup) { go parkGeneric(c, v, wg) }
 
 //go:noinline
 func parkGeneric[T any](c chan int, v T, wg *sync.WaitGroup) {
@@ -307,8 +312,8 @@ func opLive(r *rand.Rand, n int, tier string) {
 		if i%2 == 0 {
 			// one generic function parked on the same line under two instantiations of different argument shape
 			wg.Add(2)
-			go parkGeneric(stop, struct{ a, b uintptr }{1, 2}, &wg)
-			go parkGeneric(stop, uintptr(3), &wg)
+			launchGeneric(stop, struct{ a, b uintptr }{1, 2}, &wg)
+			launchGeneric(stop, uintptr(3), &wg)
 		}
 		for k := 0; k < nRecv; k++ {
 			go parkRecv(stop, &wg)
